@@ -26,21 +26,23 @@ def run(tier, seed):
         dict(name="C12_exh_refs", consts=ec.consts(REFS - ({"remove", "prependbuf", "prepend", "pullup"} if q else set()), 2,
                                                   wa=331, wb=1021, data=("a", "bLa"), nsel=(1, 9) if q else (0, 1, 2, 9))),
         # multi-chain start states: 3 forced single-symbol adds, then every 2-call (3-call) history of the move family
-        dict(name="C12_warm_moves", consts=ec.consts(MOVES, 5 if q else 6, wa=1021, wb=4099, data=("a", "b"), nsel=(1, 2, 9), warm=3)),
+        dict(name="C12_warm_moves", consts=ec.consts(MOVES, 5, wa=1021, wb=4099, data=("a", "b"), nsel=(1, 2, 9), warm=3)),
     ]
     sims = [(1, 1), (37, 331), (1021, 4099)] if q else ec.WIDTHS
     for (wa, wb) in sims:
         gen.append(dict(name="C12_rand_%d_%d" % (wa, wb),
                         consts=ec.consts(A, 16 if q else 30, wa=wa, wb=wb, data=BIGDATA, nsel=(0, 1, 2, 3, 5, 9),
                                          sizes=(0, 100, 2000, 5000), maxlen=8 if q else 10),
-                        simulate=12 if q else 120, depth=80))
+                        simulate=12 if q else 60, depth=80))
     if not q:
         gen += [
-            dict(name="C12_exh_all2", consts=ec.consts(A, 2, wa=509, wb=2048, data=("", "a", "aCL", "N"), nsel=(0, 1, 9),
-                                                       sizes=(0, 2000))),
-            dict(name="C12_exh_core3", consts=ec.consts(CORE - {"unfreeze"}, 3, wa=1021, wb=4099, data=("a", "bLa"), nsel=(0, 1, 9))),
+            dict(name="C12_exh_all2", consts=ec.consts(A, 2, wa=509, wb=2048, data=("a", "aCL", "N"), nsel=(1, 9), sizes=(2000,)),
+                 stride=2),
+            dict(name="C12_exh_core3", consts=ec.consts({"add", "prepend", "drain", "rmbuf", "addbuf", "pullup", "readln"}, 3,
+                                                       wa=1021, wb=4099, data=("a", "bLa"), nsel=(1, 9)), stride=3),
             dict(name="C12_exh_space3", consts=ec.consts({"add", "prepend", "expand", "rescommit", "drain"}, 3, wa=4099, wb=37,
-                                                        data=("a", "b"), nsel=(1, 9), sizes=(0, 5000))),
+                                                        data=("a", "b"), nsel=(1, 9), sizes=(0, 5000)), stride=3),
+            dict(name="C12_warm_moves2", consts=ec.consts(MOVES, 5, wa=509, wb=2048, data=("a", "b"), nsel=(1, 2, 9), warm=3)),
         ]
     # open findings: their triggers are excluded from the corpus above (AvoidKnown in the spec) and replayed here
     gen += [
@@ -55,7 +57,8 @@ def run(tier, seed):
              if has_op(h[:k + 1], lambda s: s["a"] == "addbufref") and h[k]["a"] == "pullup" else None),
     ]
     plan = {
-        "mc": [("C12_mc", ec.consts(A, 2 if q else 3, wa=2, wb=3, data=("", "a", "aCL", "bLa"), nsel=(0, 1, 9), sizes=(0,)))],
+        "mc": [("C12_mc", ec.consts(A, 2 if q else 3, wa=2, wb=3, data=("", "a", "aCL", "bLa") if q else ("a", "aCL"), nsel=(0, 1, 9) if q else (1, 9),
+                                    sizes=(0,)))],
         "gen": gen,
         "need_ops": sorted(A),
         "rule": "TLC enumerates every history of the stated depth over an operation family (exhaustive configs) or "
